@@ -18,7 +18,7 @@ ASSUMPTIONS = ['the description comes from the real node (C04 catalogue module) 
                'messages reach the receive loop through a stub of decode_msg that returns prepared triples (so that values and time stamps stay '
                'symbolic); JSON text is C07\'s subject. Sequences of <= 3 (quick) / 4 (thorough) messages chosen by symbolic selectors',
                'end to end: the request triple produced by the client is handed to the real dispatcher, the reply triple back to the client '
-               '(no TCP, no threads); the proxy module in front of a node is not covered']
+               '(no TCP, no threads); the same through a proxy node (frappy.proxy.proxy_class) in front of the node']
 REQUIRED_TAGS = ['update', 'error-update', 'callback', 'end-to-end']
 ACCEPTED_FLAGS = {'hash-of-nonintegral-real': 'see C01'}
 LIMITS = {'quick': {'max_paths': 30000, 'max_s': 150}, 'thorough': {'max_paths': 300000, 'max_s': 900}}
@@ -37,6 +37,8 @@ def cases(tier):
         out.append({'fn': 'run_end_to_end', 'id': f'end-to-end/{pname}/{cand}', 'params': {'pname': pname, 'cand': cand}})
     out.append({'fn': 'run_command', 'id': 'end-to-end/command', 'params': {}})
     out.append({'fn': 'run_from_string', 'id': 'from-string', 'params': {}})
+    for pname, cand in (('pf', 'float'), ('pi', 'int'), ('pe', 'smallint'), ('ps', 'struct'), ('psc', 'scaled'), ('ptu', 'tuple')):
+        out.append({'fn': 'run_proxy', 'id': f'proxy/{pname}', 'params': {'pname': pname, 'cand': cand}})
     return out
 
 
@@ -372,4 +374,121 @@ def run_from_string(env, p):
     h, per = C.scripted_handler(srv, [('change', 'm:' + wire, data)])
     env.check(per[0][0][0] == 'changed', K + '/node-refuses-its-own-value', per[0][0][:2])
     for t in REQUIRED_TAGS:
+        env.note(t)
+
+
+def run_proxy(env, p):
+    """a value written through a proxy node reaches the driver of the real node unchanged, the proxy's cache and
+    update stream mirror the real node (frappy.proxy.proxy_class + SecNode module, in-process, no sockets)"""
+    import frappy.proxy as fp
+    from frappy.core import Module, Parameter, Command, FloatRange, IntRange, EnumType, StructOf, TupleOf, StringType, ScaledInteger
+    log = []
+
+    class Remote(Module):
+        pf = Parameter('float', FloatRange(-5.5, 7.25), readonly=False, default=0)
+        pi = Parameter('int', IntRange(-3, 12), readonly=False, default=0)
+        pe = Parameter('enum', EnumType('e', a=1, b=2, c=5), readonly=False, default=1)
+        ps = Parameter('struct', StructOf(x=FloatRange(-10, 10), n=IntRange(0, 5), optional=['n']), readonly=False, default={'x': 0, 'n': 0})
+        psc = Parameter('scaled', ScaledInteger(0.1, 0, 10), readonly=False, default=1.0)
+        ptu = Parameter('tuple', TupleOf(IntRange(0, 5), StringType(0, 3)), readonly=False, default=(0, ''))
+        ro = Parameter('readonly', FloatRange(), default=1.5)
+
+        @Command(FloatRange(0, 10), result=FloatRange())
+        def cmd1(self, v):
+            """command"""
+            log.append(('cmd1', v))
+            return v
+    for pn in ('pf', 'pi', 'pe', 'ps', 'psc', 'ptu'):
+        def w(self, value, pn=pn):
+            log.append((pn, value))
+            return None
+        w.__name__ = 'write_' + pn
+        setattr(Remote, 'write_' + pn, w)
+
+    class Remote2(Remote):
+        pass
+    srvA = C.make_node({'m': {'cls': Remote2, 'description': 'remote'}})
+    desc = srvA.dispatcher.handle_request(C.Conn(), ('describe', '.', None))[2]
+    clock = C.VirtualClock(2000.0)
+    cl = make_client(env, desc, clock)
+    K = f"C12/proxy/{p['pname']}"
+    modA = srvA.secnode.modules['m']
+
+    def request(action, ident=None, data=None):
+        # the real client path, one step at a time: queue -> transmit iteration -> real dispatcher -> receive iteration -> reply
+        entry = cl.queue_request(action, ident, data)
+        cl.txq.allow = 1
+        try:
+            cl._SecopClient__txthread()
+        except StepDone:
+            pass
+        h, per = C.scripted_handler(srvA, [tuple(cl.sent_requests[-1])])
+        rx(env, cl, per[0][0], K)
+        return cl.get_reply(entry)
+    cl.request = request
+    cl.online = True
+
+    class FakeSecNode(fp.SecNode):
+        def earlyInit(self):
+            fp.Module.earlyInit(self)
+            self.secnode = cl
+    ProxyCls = fp.proxy_class(Remote2, 'P')
+    try:
+        srvB = C.make_node({'sec': {'cls': FakeSecNode, 'description': 'sec', 'uri': 'fake://a'},
+                            'p': {'cls': ProxyCls, 'description': 'proxy', 'module': 'm', 'io': 'sec'}})
+    except Exception as e:
+        env.fail(K + '/proxy-node-creation-raised/' + type(e).__name__, repr(e)[:200])
+        return
+    if not env.check(srvB.secnode.errors == [] and 'p' in srvB.secnode.modules, K + '/proxy-node-errors', srvB.secnode.errors[:3]):
+        return
+    proxy = srvB.secnode.modules['p']
+    listenerB = C.Conn('lb')
+    srvB.dispatcher.handle_request(listenerB, ('activate', None, None))
+    # updates of the real node reach the client, the proxy module and the connections of the proxy node
+    connA = C.Conn('feeds-client')
+    connA.send_reply = lambda msg: rx(env, cl, msg, K)
+    srvA.dispatcher.handle_request(connA, ('activate', None, None))
+    pname, cand = p['pname'], p['cand']
+    if cand == 'float':
+        v = env.real('v', -5.5, 7.25)
+    elif cand == 'int':
+        v = env.int('v', -3, 12)
+    elif cand == 'smallint':
+        v = [1, 2, 5][env.choice('v', 3)]
+    elif cand == 'struct':
+        v = {'x': env.real('v.x', -10, 10), 'n': env.int('v.n', 0, 5)}
+    elif cand == 'scaled':
+        v = env.int('v', 0, 99)     # transported value
+    else:
+        v = [env.int('v0', 0, 5), 'ab']
+    wname = '_' + pname
+    nlog = len(log)
+    nB = len(listenerB.sent)
+    pdt = proxy.parameters[pname].datatype
+    wire = v if cand in ('scaled', 'tuple', 'smallint') else pdt.export_value(pdt(v)) if cand != 'struct' else v
+    h, per = C.scripted_handler(srvB, [('change', 'p:' + wname, wire)])
+    reply = per[0][0]
+    if not env.check(reply[0] == 'changed', K + '/change-through-proxy-refused', reply[:2] + (reply[2][:2] if isinstance(reply[2], list) else None,)):
+        return
+    env.note('end-to-end')
+    drv = log[nlog:]
+    if env.check(len(drv) == 1 and drv[0][0] == pname, K + '/driver-calls', [e[0] for e in drv]):
+        want = modA.parameters[pname].datatype.import_value(wire)
+        env.check(M.eq(normal(drv[0][1]), normal(want)), K + '/driver-saw-other-value')
+    # proxy cache == real node cache, reply == exported cache
+    env.check(M.eq(normal(proxy.parameters[pname].value), normal(modA.parameters[pname].value)), K + '/proxy-cache-differs-from-node-cache')
+    env.check(M.eq(reply[2][0], modA.parameters[pname].export_value()), K + '/reply-of-proxy-differs-from-node-value')
+    upd = [m for m in listenerB.sent[nB:] if m[1] == 'p:' + wname]
+    env.check(bool(upd) and upd[-1][0] == 'update' and M.eq(upd[-1][2][0], modA.parameters[pname].export_value()),
+              K + '/update-stream-of-proxy-differs-from-node', len(upd))
+    # a change made by the driver of the real node arrives at the proxy node's connections
+    if cand == 'float':
+        y = env.real('y', -5.5, 7.25)
+        env.assume(y != modA.pf)
+        nB = len(listenerB.sent)
+        modA.pf = y
+        upd = [m for m in listenerB.sent[nB:] if m[1] == 'p:_pf']
+        env.check(len(upd) == 1 and M.eq(upd[0][2][0], y), K + '/driver-update-not-forwarded-by-proxy', len(upd))
+        env.check(M.eq(proxy.pf, y), K + '/proxy-cache-not-updated')
+    for t in ('update', 'error-update', 'callback'):
         env.note(t)
